@@ -150,7 +150,7 @@ EXTRA_TECH = {
     "C03": " + source histories (from_periodic / from_textfile / filenames / from_iterable under start/stop with a pending consumer): a source reads on only when its emission's awaitables are done",
     "C04": " + scatter()/gather() segments on an in-process Dask cluster (no result carrying a reference reaches the sink after its counter hit zero)",
     "C06": " + statement programs (groupby / in-place assignment / select / filter in any order) run by one interpreter on the streaming objects and on pandas; falsy and non-string column labels",
-    "C10": " + model-free metadata oracle on asynchronous pipelines (buffer/delay/rate_limit/map_async/timed_window/partition with timeout) against the same pipeline with the timing removed",
+    "C10": " + 20 c10_ theorems over the event-loop models of the asynchronous node groups (Props/AsyncMetadata.lean: every batch / tuple carries exactly its members' metadata in member order, for every action sequence) with their correspondences + model-free metadata oracle on asynchronous pipelines (buffer/delay/rate_limit/map_async/timed_window/partition with timeout) against the same pipeline with the timing removed",
     "C11": " + defect-mirroring model of EWMean on NaN cells and a pandas NaN specification (recorded finding), both compared with the real code",
     "C12": " + an uninterrupted run in which a consumer rejects one delivery while the producer carries on",
     "C13": " + rejecting consumers and falsy payloads",
